@@ -373,6 +373,11 @@ def chain_payload(rng, desc, target, value):
     return bytes(buf)
 
 
+def unused_sample(rng, lo, hi, used):
+    c = [v for v in range(lo, hi + 1) if v not in used]
+    return rng.sample(c, min(2, len(c)))
+
+
 # ---------- running the implementation ----------
 def impl_decode(C, fr, payload):
     try:
@@ -442,7 +447,7 @@ def run(chk):
         return vals
 
     # ================= simple multiplexing =================
-    nsimple = 300 if not thorough else 2500
+    nsimple = 300 if not thorough else 5000
     for _ in range(nsimple):
         desc = gen_simple(rng)
         fr = build_api(C, desc, dbc_style=rng.random() < 0.5)
@@ -464,12 +469,28 @@ def run(chk):
                 write_raw(buf, root["le"], root["start"], root["size"], sv)
                 chk.count("simple: selector %s" % ("used" if sv in used else "unused"))
                 check_decode(desc, fr, bytes(buf), "api", ngroups >= 2 or sv not in used)
-        for sv in used:                                    # more payloads on the selector values that groups use
+        frames = [("api", fr)]
+        if all(s["token"] is None or s["token"] >= 0 for s in desc["sigs"]) and rng.random() < 0.4:
+            # the same frame as DBC text (M / m<k> tokens only): roles must equal the API-built ones, decoding must agree
+            text = dbc_text(desc)
+            try:
+                fr_dbc = canmatrix.formats.loads_flat(text, "dbc").frames[0]
+            except Exception as e:
+                chk.violation("dbc-load", "generated DBC text of a simply multiplexed frame could not be loaded", dict(text=text), None, "raise:" + type(e).__name__)
+                fr_dbc = None
+            if fr_dbc is not None:
+                chk.count("simple: also loaded from DBC text")
+                ref = build_api(C, desc, dbc_style=True)
+                if roles_of(ref) != roles_of(fr_dbc) or fr_dbc.is_complex_multiplexed:
+                    chk.tie_break("roles api-vs-dbc (simple)", dict(frame=desc_brief(desc), dbc=text), roles_of(ref), roles_of(fr_dbc))
+                frames.append(("dbc", fr_dbc))
+        for sv in used + unused_sample(rng, lo, hi, used):   # more payloads on the selector values that groups use
             for _ in range(4):
                 buf = bytearray(rng.randrange(256) for _ in range(desc["size"]))
                 write_raw(buf, root["le"], root["start"], root["size"], sv)
-                chk.count("simple: selector used")
-                check_decode(desc, fr, bytes(buf), "api", True)
+                for tag, f in frames:
+                    chk.count("simple: selector %s" % ("used" if sv in used else "unused"))
+                    check_decode(desc, f, bytes(buf), tag, True)
         # ---- encode -> decode round trip per group (+ an unused value, + no selector) ----
         unused = [v for v in range(lo, hi + 1) if v not in used]
         sels = list(used) + ([rng.choice(unused)] if unused else []) + [None]
@@ -525,7 +546,7 @@ def run(chk):
             add(301, [[desc["size"], 0], list(p)] + sig_groups(fr), out, dict(frame=desc_brief(desc), payload=p.hex()), "decode-length")
 
     # ================= extended multiplexing =================
-    next_ = 300 if not thorough else 2500
+    next_ = 300 if not thorough else 5000
     built = 0
     while built < next_:
         desc = gen_ext(rng, dbc_single=True)
